@@ -349,6 +349,28 @@ func TestVX_C14(t *testing.T) {
 	for name, k := range bnd {
 		run(c14case{Fn: "base", G: vx.Hex(bytes32(k)), Shape: "bnd:" + name})
 	}
+	// scalars just around n (k = n + j is [j]G: the last table addition meets an accumulator that is congruent to a small
+	// multiple of G), and k = n + 2t for every single window value t of the layouts (then accumulator == addend mod n
+	// when t is added last): the internal coincidences of a comb that only exist above n
+	W := 320
+	if th {
+		W = 4096
+	}
+	for j := -W; j <= W; j++ {
+		run(c14case{Fn: "base", G: vx.Hex(bytes32(new(big.Int).Add(sm2ref.N, big.NewInt(int64(j))))), Shape: fmt.Sprintf("n%+d", j)})
+	}
+	lim := new(big.Int).Lsh(big.NewInt(1), 256)
+	for _, lay := range [][4]int{{6, 3, 14, 4}, {4, 2, 32, 0}, {5, 3, 17, 1}, {7, 3, 12, 4}} {
+		if !th && lay[0] != 6 {
+			continue
+		}
+		combScalars(lay[0], lay[1], lay[2], lay[3], []int{0}, func(t []byte, shape string) {
+			k := new(big.Int).Add(sm2ref.N, new(big.Int).Lsh(new(big.Int).SetBytes(t), 1))
+			if k.Cmp(lim) < 0 {
+				run(c14case{Fn: "base", G: vx.Hex(bytes32(k)), Shape: "n+2t:" + shape})
+			}
+		})
+	}
 	// ---- variable-point multiplication
 	pts := c14points()
 	for pn, p := range pts {
